@@ -88,6 +88,7 @@ struct nng_http_conn {
 	bool              res_sent;
 	bool              closed;
 	bool              iserr;
+	nni_atomic_int    refs; // the owner, plus a transaction in progress
 };
 
 nng_http_req *
@@ -1543,9 +1544,30 @@ nni_http_conn_peer_cert(nni_http_conn *conn, nng_tls_cert **certp)
 	return (rv);
 }
 
+// A transaction in progress keeps the connection's memory alive: closing
+// (and freeing) the connection from the application completes the
+// transaction with an error, but its callbacks may still look at the
+// connection until they are done.
+void
+nni_http_conn_hold(nni_http_conn *conn)
+{
+	nni_atomic_inc(&conn->refs);
+}
+
 void
 nni_http_conn_fini(nni_http_conn *conn)
 {
+	nni_http_conn_close(conn);
+	nni_http_conn_rele(conn);
+}
+
+void
+nni_http_conn_rele(nni_http_conn *conn)
+{
+	if (nni_atomic_dec_nv(&conn->refs) != 0) {
+		return;
+	}
+
 	nni_aio_stop(&conn->wr_aio);
 	nni_aio_stop(&conn->rd_aio);
 
@@ -1574,6 +1596,8 @@ http_init(nni_http_conn **connp, nng_stream *data, bool client)
 		return (NNG_ENOMEM);
 	}
 	conn->client = client;
+	nni_atomic_init(&conn->refs);
+	nni_atomic_set(&conn->refs, 1);
 	nni_mtx_init(&conn->mtx);
 	nni_aio_list_init(&conn->rdq);
 	nni_aio_list_init(&conn->wrq);
